@@ -229,7 +229,16 @@ def handleModel (j : Json) : Except String Json := do
   let Lw := L * window
   let tlExp : STermList GQ := if infinite then m.exp.toTermListInfinite small Lw else m.exp.toTermListFinite small
   let inWin (t : List SOp × GQ) : Bool := t.1.all (fun o => decide (0 ≤ o.site) && decide (o.site < Lw))
-  let fromTerms : Sym GQ := (STermList.denote Lw ((tlOn ++ tlCt ++ tlExp).filter inWin))
+  -- `MultiCouplingTerms.to_TermList` leaves out the operator on site `switchLR` when it is named like the string to its
+  -- left; the MPO graph has an edge on that site all the same, so the site counts for "the term lies in the window"
+  let switchSites : List Int := match ct with
+    | .plain _ => []
+    | .multi mt => mt.conns.filterMap (fun oc => oc.map (fun k => k.switchLR))
+  let tlCtW : STermList GQ :=
+    if switchSites.length = tlCt.length then
+      ((tlCt.zip switchSites).filter (fun (t, sw) => inWin t && decide (0 ≤ sw) && decide (sw < Lw))).map (·.1)
+    else tlCt.filter inWin
+  let fromTerms : Sym GQ := (STermList.denote Lw ((tlOn ++ tlExp).filter inWin ++ tlCtW))
   let fromGraph : Sym GQ := if infinite then denoteGraphWindow g window else denoteGraph g
   let cT := canon 0 fromTerms
   let cG := canon 0 fromGraph
